@@ -2,13 +2,15 @@
 
 package clusterx
 
-// Listed finding "a stale entry of an intermediate term wins an election over entries committed by a later leader"
+// Listed finding "old-term entries committed by a later leader conflict with entries of an intermediate term"
 // (found by the thorough tier, TestC02_Cluster seed 1791163). A leader never writes an entry of its own term when it
 // is installed: entries it holds from an older term t are committed during its leadership in term T > t but keep
 // term t. A node that was cut off while it led a term t' in between (t < t' < T) and holds an unreplicated entry of
 // t' reports a head (t', o) that the coordinator ranks above every (t, o'), is elected, and truncates the committed
 // entries away - the situation of figure 8 in the Raft paper, which Raft excludes by committing entries of older
-// terms only together with an entry of the current term.
+// terms only together with an entry of the current term. When the holder of the stale entries is not elected but
+// added as a follower, it is truncated to the leader's highest entry of a term <= t', although its log differs from
+// the leader's below that offset (thorough tier, TestC03_Cluster seed 1369397).
 //
 // staleTermWinners recognises the root cause in a recorded history; TestKF_C02_StaleTerm / TestKF_C03_StaleTerm
 // re-confirm it with a scripted history on every run.
@@ -24,12 +26,15 @@ import (
 	"verifharness/evid"
 )
 
-const kfStaleTerm = "stale-entry-of-an-intermediate-term-wins-an-election-over-entries-committed-by-a-later-leader"
+const kfStaleTerm = "old-term-entries-committed-by-a-later-leader-conflict-with-entries-of-an-intermediate-term"
 
 func staleTermKnown(focus string) bool { return evid.Known(focus + ":" + kfStaleTerm) }
 
-// staleTermWinners: installations of a leader X whose head entry is of term t', although another node had been
-// installed as leader in a later term T (t' < T) holding a log whose head entry was of a term t < t'.
+// staleTermWinners: a node L is installed as leader of term T with a log whose head entry is of an older term t,
+// and another node X answers a NewTerm of term T or later with a head entry of a term t' in between (t < t' < T):
+// X's entries of term t' were never replicated (or L would not have been chosen), L commits its old-term entries
+// as they are, and then either X is ranked above them at a later election and truncates them away, or X is added as
+// a follower and truncated to "the leader's highest entry of a term <= t'", below which its log differs.
 func staleTermWinners(evs []Event) []string {
 	type est struct {
 		term, headTerm int64
@@ -37,7 +42,6 @@ func staleTermWinners(evs []Event) []string {
 	}
 	heads := map[string]map[int64]*proto.EntryId{}
 	var established []est
-	var out []string
 	for _, e := range evs {
 		switch e.Kind {
 		case "newterm.answered":
@@ -48,17 +52,27 @@ func staleTermWinners(evs []Event) []string {
 				heads[e.From][e.Term] = e.Head
 			}
 		case "becomeleader.ok":
-			h := heads[e.From][e.Term]
-			if h == nil {
-				continue
+			if h := heads[e.From][e.Term]; h != nil {
+				established = append(established, est{e.Term, h.Term, e.From})
 			}
-			for _, x := range established {
-				if x.node != e.From && x.term < e.Term && x.headTerm >= 0 && x.headTerm < h.Term && h.Term < x.term {
-					out = append(out, fmt.Sprintf("%s is installed as leader of term %d with head (term %d, offset %d), an entry written in term %d; %s had led term %d with a log whose head entry was of term %d: what %s committed of that log in term %d is ranked below the stale entry",
-						e.From, e.Term, h.Term, h.Offset, h.Term, x.node, x.term, x.headTerm, x.node, x.term))
+		}
+	}
+	var out []string
+	seen := map[string]bool{}
+	for _, e := range evs {
+		if e.Kind != "newterm.answered" || e.Head == nil {
+			continue
+		}
+		for _, x := range established {
+			if x.node != e.From && e.Term >= x.term && x.headTerm >= 0 && x.headTerm < e.Head.Term && e.Head.Term < x.term {
+				k := fmt.Sprintf("%s/%d/%s/%d", e.From, e.Head.Term, x.node, x.term)
+				if seen[k] {
+					continue
 				}
+				seen[k] = true
+				out = append(out, fmt.Sprintf("%s answers NewTerm(%d) with head (term %d, offset %d), an entry written in term %d; %s had been installed as leader of term %d with a log whose head entry was of term %d: what %s committed of that log in term %d conflicts with the entries %s holds",
+					e.From, e.Term, e.Head.Term, e.Head.Offset, e.Head.Term, x.node, x.term, x.headTerm, x.node, x.term, e.From))
 			}
-			established = append(established, est{e.Term, h.Term, e.From})
 		}
 	}
 	return out
